@@ -17,6 +17,7 @@ LEVEL_NOTE = ('Trusted: ast front-end, interpreter, our transcription of Kaula (
               'Source literals are rounded decimals (2/3 typed to 25 digits), so coefficients are compared to 1e-11 of the largest coefficient.')
 EXPLANATION = ('R09.1 calc_inclination entries == F_lmp(I)^2 identically in I; omitted (m,p) must be identically zero. R09.2 calc_inclination_off entries == '
                'F_lmp(0)^2, omitted ones zero at I=0. R09.3 universal coefficients == (2-delta_0m)(l-m)!/(l+m)!. R09.4 registries map l to the function of that l.')
+EXPLANATION += ' The registries are read with every top-level statement that binds or mutates them executed, and a who-may-write scan over all modules shows nothing else stores into them.'
 
 
 def domain_regions(entry, I):
